@@ -1,8 +1,9 @@
 CONSTANTS Mags = {1, 8} Pages <- PagesX Rows = {1} Cids = {1, 2} Nats = {0} Flofs = {1, 2} Progs <- ProgsA
           HdrFaults <- HdrAll RowFaults <- RowFewA PktFaults <- PktAll TripFaults = {4} FlofFaults <- FlofFew MaxFaults = 2 MaxPk = 4
+          HdrTxtFaults <- HtxtFew
 SPECIFICATION Spec
 VIEW mcview
 CONSTRAINT Bounded
-INVARIANTS OneVersion RollingOne OnlyTransmitted EnhNotMisplaced LinksContained
-PROPERTIES KeepsRows BadRowContained AddressFaultNothing HeaderFaultOnlyAbandons ParityErrorContained DamagedLinkKept
+INVARIANTS OneVersion RollingOne OnlyTransmitted EnhNotMisplaced LinksContained HdrTextOnly
+PROPERTIES KeepsRows BadRowContained AddressFaultNothing HeaderFaultOnlyAbandons ParityErrorContained DamagedLinkKept HeaderTextContained
 CHECK_DEADLOCK FALSE
